@@ -122,6 +122,10 @@ def cases(tier):
         b.dist(("A", "C"), ("B", "C")).dirs("C", ["A", "B"]).dist(("C", "P"))
         C.append(Case("single.dist.p%d" % pat, "single", b.net()))
         b = _B(pat)
+        b.p("A", 0, 0, xy="fix").p("B", 200, 0, xy="fix").p("C", 100, 100).p("P", 300, 100)
+        b.dist(("A", "C"), ("B", "C")).dirs("C", ["A", "B"]).dist(("C", "P"))
+        C.append(Case("single.axis.p%d" % pat, "single", b.net()))      # seen along a coordinate axis only: its y column is exactly zero, not 1e-16
+        b = _B(pat)
         b.p("A", 0, 0, xy="fix").p("B", 200, 0, xy="fix").p("C", 100, 100).p("P", 0, 200)
         b.dist(("A", "C"), ("B", "C")).dirs("A", ["B", "C", "P"])
         C.append(Case("single.dir.p%d" % pat, "single", b.net()))
